@@ -89,6 +89,17 @@ M = [
     # benign (round 2): the cache asked with .get() (and the cache_size=0 mapping given one): the fault-injecting wrapper must be transparent
     ("b19", "C05", "benign", BI, "        W, H = trampoline.trampoline(self._increment_and_space_time_levy_area())\n        A = _davie_foster_approximation(",
      "        W_H = getattr(self._top._increment_and_space_time_levy_area_cache, 'get', lambda _k: None)(self)\n        if W_H is None:\n            W_H = trampoline.trampoline(self._increment_and_space_time_levy_area())\n        W, H = W_H\n        A = _davie_foster_approximation("),
+    # round 3
+    # m06c: Levy seed offset by a per-interpreter salted string hash (only visible across interpreter sessions: experiment X)
+    ("m06c", "C06", "break", BI, "        return _randn(size, self._top._dtype, self._top._device, self._a_seed())",
+     "        return _randn(size, self._top._dtype, self._top._device, (int(self._a_seed()) + hash(self._top._levy_area_approximation)) % (2 ** 32))"),
+    # m07f: every computed value is also kept in a side list on the cache object (len(cache) stays bounded: retained-values walk)
+    ("m07f", "C07", "break", BI, "        super().__setitem__(key, value)\n        self._keys.append(key)", "        super().__setitem__(key, value)\n        self._keys.append(key)\n        self.__dict__.setdefault('_all_values', []).append(value)"),
+    # b20: a span probe bm(ts[0], ts[-1]) before the loop is harmless for a stateless or shared peer (C12 must stay green)
+    ("b20", "C12", "benign", SD, "    ys, extra_solver_state = solver.integrate(y0, ts, extra_solver_state)\n\n    return parse_return", "    bm(ts[0], ts[-1])  # span probe\n    ys, extra_solver_state = solver.integrate(y0, ts, extra_solver_state)\n\n    return parse_return"),
+    # b21: an integer bookkeeping slot on every node is not a retained value (C07 must stay green)
+    ("b21", "C07", "benign", BI, "                 '_left_child',\n                 '_right_child')\n\n    def __init__(self, start, end, parent, is_left, top):\n",
+     "                 '_left_child',\n                 '_right_child',\n                 '_hits')\n\n    def __init__(self, start, end, parent, is_left, top):\n        self._hits = 0\n"),
 ]
 
 
